@@ -57,7 +57,8 @@ def _band_family(tier, seed, rep):
     rng = random.Random(7100 + seed)
     quick = tier == "quick"
     want = {"fx_band": 70 if quick else 700, "dx_above": 30 if quick else 300, "dx_below": 30 if quick else 300}
-    floor = {"fx_band": 40, "dx_above": 10, "dx_below": 6}  # keep sampling (a few rounds) until every band kind is populated
+    # keep sampling (a few rounds) until every band kind is populated; the "stalled" band is hit by ~1.5% of the bases only
+    floor = {"fx_band": 40, "dx_above": 10, "dx_below": 6} if quick else {"fx_band": 700, "dx_above": 300, "dx_below": 80}
     got = {k: [] for k in want}
 
     def regular():
@@ -69,7 +70,7 @@ def _band_family(tier, seed, rep):
         # residual and increment of comparable size after a step (needed for the increment bands, tol = 1/2 .. 1/9)
         return gn.make_instance(rng, kind="quad", strong=True, near=True, mrange=1, maxiter=4, T=gn.T_PHASE1, D=rng.choice([2, 2, 3, 4]))
 
-    for rnd in range(4 if quick else 12):
+    for rnd in range(4 if quick else 5):
         if rnd == 0:
             bases = [regular() for _ in range(200 if quick else 1500)] + [strong() for _ in range(300 if quick else 1500)]
         else:
@@ -85,7 +86,7 @@ def _band_family(tier, seed, rep):
                 for b in gn.band_instances(rng, base, res[j]):
                     if len(got[b["band"]]) < want[b["band"]]:
                         got[b["band"]].append(b)
-        if all(len(got[k]) >= (floor[k] if quick else want[k]) for k in want):
+        if all(len(got[k]) >= floor[k] for k in want):
             break
     return [b for k in gn.BAND_KINDS for b in got[k]]
 
